@@ -101,7 +101,7 @@ def has_effect_call(node: ast.AST) -> bool:
             f = n.func
             if isinstance(f, ast.Name) and f.id in PURE_BUILTINS:
                 continue
-            if isinstance(f, ast.Attribute) and f.attr in ("get", "startswith", "find", "lstrip", "rstrip", "join", "group"):
+            if isinstance(f, ast.Attribute) and f.attr in ("get", "startswith", "find", "index", "lstrip", "rstrip", "join", "group"):
                 continue
             return True
         if isinstance(n, ast.NamedExpr):
@@ -161,6 +161,7 @@ class Verifier:
         self.notes: List[str] = []
         self.loop_ordinals: Dict[int, int] = {}
         self._ghost_funcs: Dict[str, Any] = {}
+        self.unmodelled: set = set()   # library functions modelled as uninterpreted symbols on some path of this function
         n = 0
         for sub in ast.walk(self.node):
             if isinstance(sub, (ast.While, ast.For)):
